@@ -232,12 +232,14 @@ Definition new_bracket (rs : rung_system) (m : mode) : bracket :=
       mkB m 0 0 (Filled (repeat (None, None) size) lv :: map (fun x => Future (fst x) (snd x)) rest)
   end.
 
-Definition create_new_bracket (m : mgr) : mgr * nat :=
+(* _create_new_bracket; "assert len(self._brackets) == len(self._bracket_id_to_offset)" *)
+Definition create_new_bracket (m : mgr) : result (mgr * nat) :=
+  if negb (Nat.eqb (length (m_brackets m)) (length (m_offsets m))) then Error EInternal else
   let bid := length (m_brackets m) in
   let off := Nat.modulo bid (length (m_rs m)) in
-  (mkM (m_rs m) (m_mode m)
-       (m_brackets m ++ [new_bracket (nth off (m_rs m) []) (m_mode m)])
-       (m_offsets m ++ [off]) (m_primary m), bid).
+  Ok (mkM (m_rs m) (m_mode m)
+          (m_brackets m ++ [new_bracket (nth off (m_rs m) []) (m_mode m)])
+          (m_offsets m ++ [off]) (m_primary m), bid).
 
 Definition set_brackets (m : mgr) (bs : list bracket) : mgr :=
   mkM (m_rs m) (m_mode m) bs (m_offsets m) (m_primary m).
@@ -246,8 +248,28 @@ Definition set_primary (m : mgr) (p : nat) : mgr :=
 
 Definition mgr_init (rss : list rung_system) (md : mode) : result mgr :=
   if check_bracket_rungs rss then
-    let '(m, bid) := create_new_bracket (mkM rss md [] [] 0) in Ok (set_primary m bid)
+    match create_new_bracket (mkM rss md [] [] 0) with
+    | Ok (m, bid) => Ok (set_primary m bid)
+    | Error e => Error e
+    end
   else Error EBadRungs.
+
+(* _level_to_prev_level[(offset, level)]: the rung level below [lv] in rung system [offset], or 0.
+   A missing key (KeyError) is an Error. Levels of a rung system are distinct, so the first hit is the entry. *)
+Fixpoint prev_level_in (rs : rung_system) (prev lv : Z) : option Z :=
+  match rs with
+  | [] => None
+  | (_, l) :: r => if Z.eqb l lv then Some prev else prev_level_in r l lv
+  end.
+Definition level_to_prev_level (m : mgr) (bid : nat) (lv : Z) : result Z :=
+  match nth_error (m_offsets m) bid with
+  | None => Error EInternal
+  | Some off =>
+      match prev_level_in (nth off (m_rs m) []) 0%Z lv with
+      | Some p => Ok p
+      | None => Error EInternal
+      end
+  end.
 
 (* for bracket_id in range(primary, next_id): first bracket with a free slot *)
 Fixpoint try_brackets (bs : list bracket) (ids : list nat)
@@ -272,7 +294,9 @@ Definition next_job (m : mgr) : result (mgr * (nat * slot_in_rung)) :=
   | Error e => Error e
   | Ok (Some (bs', i, s)) => Ok (set_brackets m bs', (i, s))
   | Ok None =>
-      let '(m1, bid) := create_new_bracket m in
+      match create_new_bracket m with
+      | Error e => Error e
+      | Ok (m1, bid) =>
       match nth_error (m_brackets m1) bid with
       | None => Error EInternal
       | Some b =>
@@ -281,6 +305,7 @@ Definition next_job (m : mgr) : result (mgr * (nat * slot_in_rung)) :=
           | Ok (_, None) => Error ENoFreeSlot      (* "Newly created bracket has to have a free slot" *)
           | Ok (b', Some s) => Ok (set_brackets m1 (upd (m_brackets m1) bid b'), (bid, s))
           end
+      end
       end
   end.
 
@@ -316,7 +341,10 @@ Definition mgr_on_result (m : mgr) (bid : nat) (r : slot_in_rung)
             | None => Error EInternal
             | Some bp =>
                 if is_bracket_complete bp
-                then let '(m3, nid) := create_new_bracket m2 in Ok (set_primary m3 nid, tnp)
+                then match create_new_bracket m2 with
+                     | Ok (m3, nid) => Ok (set_primary m3 nid, tnp)
+                     | Error e => Error e
+                     end
                 else Ok (m2, tnp)
             end
           else Ok (m1, tnp)
@@ -388,20 +416,31 @@ Definition suggest (st : shell) (cfg_ok : bool) : result (shell * suggestion) :=
       end
   end.
 
+(* the second component of the answer: was the report passed on to the searcher
+   (resource > prev_level)? *)
 Definition on_trial_result (st : shell) (t : Z) (resource : Z) (v : mval)
-  : result (shell * decision) :=
+  : result (shell * decision * bool) :=
   match lookup t (s_pending st) with
-  | None => Ok (st, STOP)
+  | None => Ok (st, STOP, false)
   | Some (bid, s) =>
       if negb (tid_eqb (trial_id s) (Some t)) then Error ENotPendingSanity else
       let milestone := level s in
-      if Z.leb milestone resource then
-        if negb (Z.eqb resource milestone) then Error ESkippedLevel else
-        match shell_on_result st bid (mkSIR (rung_index s) (level s) (slot_index s) (trial_id s) (Some v)) with
-        | Error e => Error e
-        | Ok st' => Ok (mkS (s_mgr st') (remove_key t (s_pending st')) (s_removable st') (s_ntrials st'), PAUSE)
-        end
-      else Ok (st, CONTINUE)
+      let after :=
+        if Z.leb milestone resource then
+          if negb (Z.eqb resource milestone) then Error ESkippedLevel else
+          match shell_on_result st bid (mkSIR (rung_index s) (level s) (slot_index s) (trial_id s) (Some v)) with
+          | Error e => Error e
+          | Ok st' => Ok (mkS (s_mgr st') (remove_key t (s_pending st')) (s_removable st') (s_ntrials st'), PAUSE)
+          end
+        else Ok (st, CONTINUE) in
+      match after with
+      | Error e => Error e
+      | Ok (st', d) =>
+          match level_to_prev_level (s_mgr st') bid milestone with
+          | Error e => Error e
+          | Ok prev => Ok (st', d, Z.ltb prev resource)
+          end
+      end
   end.
 
 Definition on_trial_error (st : shell) (t : Z) : result shell :=
@@ -418,21 +457,22 @@ Definition checkpoints_can_be_removed (st : shell) : shell * list tid :=
   (mkS (s_mgr st) (s_pending st) [] (s_ntrials st), s_removable st).
 
 (* ---- event sequences (what the theorems quantify over) -------------------- *)
-(* OSuggest: a worker asks for work (searcher delivers a config);
+(* OSuggest cfg_ok: a worker asks for work; cfg_ok = the searcher delivers a config for a new trial
+                      (if not, the slot is reported as failed and suggest returns None);
    OReport t below v: trial t reports metric v at resource = (its milestone - below)
                       (below = 0: at the milestone; a trial never skips its milestone);
                       ignored by the scheduler when t is not pending;
    OError t: trial t fails (ignored when not pending).
    t, below, v are arbitrary: every order of returning jobs, every failure subset. *)
-Inductive op := OSuggest | OReport (t : Z) (below : nat) (v : mval) | OError (t : Z) | OCollect.
+Inductive op := OSuggest (cfg_ok : bool) | OReport (t : Z) (below : nat) (v : mval) | OError (t : Z) | OCollect.
 
 Definition step (st : shell) (o : op) : result shell :=
   match o with
-  | OSuggest => match suggest st true with Ok (st', _) => Ok st' | Error e => Error e end
+  | OSuggest cfg_ok => match suggest st cfg_ok with Ok (st', _) => Ok st' | Error e => Error e end
   | OReport t below v =>
       let resource := match lookup t (s_pending st) with
                       | Some (_, s) => (level s - Z.of_nat below)%Z | None => 0%Z end in
-      match on_trial_result st t resource v with Ok (st', _) => Ok st' | Error e => Error e end
+      match on_trial_result st t resource v with Ok (st', _, _) => Ok st' | Error e => Error e end
   | OError t => on_trial_error st t
   | OCollect => Ok (fst (checkpoints_can_be_removed st))
   end.
